@@ -54,13 +54,13 @@ type WriterSpec struct {
 
 // OpSpec is one operation of a writer (or of a hook-class worker).
 type OpSpec struct {
-	Kind      string `json:"k"`             // put putnew del secret crown insert expiry push | get
-	Dir       string `json:"d"`             // key directory, e.g. "a/b/"
-	N         int    `json:"n"`             // key number; the key is <dir>k<writer>-<n>
-	Score     int    `json:"s,omitempty"`   // for put/putnew/push
-	Tag       string `json:"t,omitempty"`   // for put/putnew/push
-	PreSecret bool   `json:"ps,omitempty"`  // record flagged secret before the write
-	PreCrown  bool   `json:"pc,omitempty"`  // record flagged crown jewel before the write
+	Kind      string `json:"k"`            // put putnew del secret crown insert expiry push | get
+	Dir       string `json:"d"`            // key directory, e.g. "a/b/"
+	N         int    `json:"n"`            // key number; the key is <dir>k<writer>-<n>
+	Score     int    `json:"s,omitempty"`  // for put/putnew/push
+	Tag       string `json:"t,omitempty"`  // for put/putnew/push
+	PreSecret bool   `json:"ps,omitempty"` // record flagged secret before the write
+	PreCrown  bool   `json:"pc,omitempty"` // record flagged crown jewel before the write
 }
 
 // Cond is the small condition language the reference model can evaluate.
@@ -99,16 +99,16 @@ type HookSpec struct {
 	PostGet bool   `json:"postget"`
 	PrePut  bool   `json:"preput"`
 	// behaviour: a pure function of the phase and the key number n
-	VetoPhase string `json:"veto_phase,omitempty"` // "" preget postget preput
-	VetoMod   int    `json:"veto_mod,omitempty"`   // veto when n % VetoMod == VetoRem
-	VetoRem   int    `json:"veto_rem,omitempty"`
-	ReplPhase string `json:"repl_phase,omitempty"` // "" postget preput
-	ReplMod   int    `json:"repl_mod,omitempty"`
-	ReplRem   int    `json:"repl_rem,omitempty"`
-	ShareWith int    `json:"share_with"`
-	RegAt     int    `json:"reg_at"`
-	CancelAt  int    `json:"cancel_at"` // -1 after all workers finished, -2 never
-	DoubleCancel bool `json:"double_cancel,omitempty"`
+	VetoPhase    string `json:"veto_phase,omitempty"` // "" preget postget preput
+	VetoMod      int    `json:"veto_mod,omitempty"`   // veto when n % VetoMod == VetoRem
+	VetoRem      int    `json:"veto_rem,omitempty"`
+	ReplPhase    string `json:"repl_phase,omitempty"` // "" postget preput
+	ReplMod      int    `json:"repl_mod,omitempty"`
+	ReplRem      int    `json:"repl_rem,omitempty"`
+	ShareWith    int    `json:"share_with"`
+	RegAt        int    `json:"reg_at"`
+	CancelAt     int    `json:"cancel_at"` // -1 after all workers finished, -2 never
+	DoubleCancel bool   `json:"double_cancel,omitempty"`
 }
 
 // PlanSpec parameterises the fixed templates of the classes pair and shared.
